@@ -6,6 +6,7 @@ cd /verif
 git -C /repo diff --quiet || { echo "/repo has local changes"; exit 2; }
 for d in seeded/*${filt}*/; do
   name=$(basename "$d"); prop=${name%%-*}
+  if grep -q '"superseded"' "/verif/$d/meta.json"; then echo "$name: SUPERSEDED (see meta.json)"; continue; fi
   git -C /repo apply "/verif/$d/patch.diff" 2>/dev/null || { echo "$name: PATCH-DOES-NOT-APPLY"; continue; }
   t0=$(date +%s)
   out=$(./check "$prop" --tier "$tier" 2>&1); rc=$?
